@@ -9,10 +9,12 @@ cd $wt || exit 2
 git checkout -q -- . && git clean -fdq -e target
 if ! git apply --check $src/patch.diff 2>>$out; then echo "PATCH-DOES-NOT-APPLY" >> $out; exit 1; fi
 # demo without the mutant
+CARGO_BUILD_JOBS=8 cargo build --offline -p capy >/dev/null 2>&1
 (bash $src/demo.sh $wt >>$out 2>&1); clean_rc=$?
 git apply $src/patch.diff
 CARGO_BUILD_JOBS=8 cargo test --workspace --no-fail-fast --offline 2>&1 | grep -E "^test result|FAILED|failed" > $src/tests.log
 fails=$(grep -c "FAILED\|failed;" $src/tests.log); okline=$(grep -E "^test result" $src/tests.log | awk '{s+=$4; f+=$6} END {print s" passed "f" failed"}')
+CARGO_BUILD_JOBS=8 cargo build --offline -p capy >/dev/null 2>&1
 (bash $src/demo.sh $wt >>$out 2>&1); mut_rc=$?
 git checkout -q -- . && git clean -fdq -e target
 echo "RESULT id=$id m=$m tests=[$okline] demo_clean_rc=$clean_rc demo_mutant_rc=$mut_rc" | tee -a $out
